@@ -1,21 +1,40 @@
-(* C03/Corr.v — correspondence on the term-algebra instance: certificates and keys are small
-   numbers (which key pair signed / which certificate file the verifier was handed). *)
+(* C03/Corr.v — correspondence on the term-algebra instance: keys are small numbers (which key pair
+   signed), certificates are Gd k (the certificate of key k), Jk n (published octets that are no
+   certificate) or Bl n (a KeyDescriptor that carries no certificate); a case is a whole life of one receiver: the metadata it starts with, the operations
+   (verifications, reloads) in order and the output observed on the real code for every verification
+   (accept/reject + which certificates were handed to the verifier). *)
 From Coq Require Import String List Bool Arith.
 From Verif Require Import Base.Str Base.Run C03.Model C03.Spec C03.Proofs.
 Import ListNotations.
 
 Definition iinput := input icert imsg isig.
-Definition case := (iinput * (bool * list nat))%type.
+Definition iout := (bool * list icert)%type.
+Definition iop := op icert imsg isig.
+Definition case := (metadata icert * bool * list iop * list iout)%type.
+
+Definition icert_eqb (a b : icert) : bool :=
+  match a, b with
+  | Gd x, Gd y => Nat.eqb x y
+  | Jk x, Jk y => Nat.eqb x y
+  | Bl x, Bl y => Nat.eqb x y
+  | _, _ => false
+  end.
+
+Lemma icert_eqb_eq a b : icert_eqb a b = true <-> a = b.
+Proof.
+  destruct a as [x|x|x], b as [y|y|y]; cbn [icert_eqb]; try (split; discriminate);
+    rewrite Nat.eqb_eq; split; try (intros ->; reflexivity); intros [= ->]; reflexivity.
+Qed.
 
 Definition use_is_enc (u : option use) : bool := match u with Some Encryption => true | _ => false end.
 
-Definition published_b (md : metadata nat) (e : string) (c : nat) : bool :=
+Definition published_b (md : metadata icert) (e : string) (c : icert) : bool :=
   match lookup_md e md with
-  | Some roles => existsb (fun role => existsb (fun kd => Nat.eqb (snd kd) c && negb (use_is_enc (fst kd))) role) roles
+  | Some roles => existsb (fun role => existsb (fun kd => icert_eqb (snd kd) c && negb (use_is_enc (fst kd))) role) roles
   | None => false
   end.
 
-Definition no_signing_key_b (md : metadata nat) (issuer : option string) : bool :=
+Definition no_signing_key_b (md : metadata icert) (issuer : option string) : bool :=
   match issuer with
   | Some e => match lookup_md e md with
               | Some roles => forallb (fun role => forallb (fun kd => use_is_enc (fst kd)) role) roles
@@ -24,38 +43,82 @@ Definition no_signing_key_b (md : metadata nat) (issuer : option string) : bool 
   | None => true
   end.
 
-Definition claimed_published_b (x : iinput) (c : nat) : bool :=
+Definition claimed_published_b (x : iinput) (c : icert) : bool :=
   match claimed x with Some e => published_b (md x) e c | None => false end.
 
-Definition trusted_b (x : iinput) (c : nat) : bool :=
+Definition trusted_b (x : iinput) (c : icert) : bool :=
   claimed_published_b x c
-  || (negb (only_md x) && negb (detached x) && no_signing_key_b (md x) (claimed x) && existsb (Nat.eqb c) (embedded x)).
+  || (negb (only_md x) && negb (detached x) && no_signing_key_b (md x) (claimed x) && existsb (icert_eqb c) (embedded x)).
 
 Definition genuine_b (x : iinput) : bool := Nat.eqb (snd (s x)) (m x).
 
-Definition spec_b (x : iinput) (out : bool * list nat) : bool :=
+Definition spec_b (x : iinput) (out : iout) : bool :=
   forallb (trusted_b x) (snd out)
-  && (if fst out then genuine_b x && trusted_b x (fst (s x)) else true)
-  && (if genuine_b x && claimed_published_b x (fst (s x)) then fst out else true).
+  && (if fst out then genuine_b x && trusted_b x (Gd (fst (s x))) else true)
+  && (if genuine_b x && claimed_published_b x (Gd (fst (s x))) then fst out else true).
 
-(* mk md only_md claimed embedded detached signer tampered obs: the signature was made by `signer`
-   over message 7; `tampered` = the received octets differ from the signed ones *)
-Definition mk (mdx : metadata nat) (only_mdx : bool) (claimedx : option string) (embeddedx : list nat)
-  (detachedx : bool) (signer : nat) (tampered : bool) (obs : bool * list nat) : case :=
-  (Build_input mdx only_mdx claimedx embeddedx detachedx (if tampered then 8 else 7) (isign signer 7), obs).
+(* finding class 2 (C03-F2): the claimed issuer publishes for signing a KeyDescriptor without certificate.
+   Excused: a rejection (every key of the issuer is lost), and -- where the opt-in fallback is on and the
+   signature is enveloped -- use of the embedded certificates instead.  Nothing else. *)
+Definition blank_pub_b (x : iinput) : bool := existsb iblank (walk_certs (md x) (claimed x)).
+Definition fallback_cfg (x : iinput) : bool := negb (only_md x) && negb (detached x).
+Definition in_f2 (x : iinput) (out : iout) : bool :=
+  blank_pub_b x
+  && forallb (fun c => claimed_published_b x c || (fallback_cfg x && existsb (icert_eqb c) (embedded x))) (snd out)
+  && (negb (fst out) || (fallback_cfg x && genuine_b x && existsb (icert_eqb (Gd (fst (s x)))) (embedded x))).
 
-Definition out_eqb (a b : bool * list nat) : bool :=
-  Bool.eqb (fst a) (fst b) && list_eqb Nat.eqb (snd a) (snd b).
+(* finding class 1 (C03-F1) = outside the guard of c03_trust: a detached signature, and the walk over the
+   issuer's published signing certificates meets one that is no certificate before one that verifies.
+   Only a REJECTION can be excused by it (soundness has no guard here). *)
+Definition in_f1 (x : iinput) (out : iout) : bool :=
+  detached x && negb (fst out) && negb (blank_pub_b x)
+  && hits_unreadable iverify ireadable (walk_certs (md x) (claimed x)) (m x) (s x).
 
-(* for detached (query-string) signatures the certificates tried are not observable: the
-   verification happens in-process, not through the xmlsec1 stand-in *)
+(* walk the life of the receiver with a per-verification test *)
+Fixpoint seq_b (pb : iinput -> iout -> bool) (cur : metadata icert) (only : bool) (ops : list iop) (outs : list iout) : bool :=
+  match ops with
+  | [] => match outs with [] => true | _ => false end
+  | Reload m' :: r => seq_b pb m' only r outs
+  | ReloadFailed :: r => seq_b pb cur only r outs
+  | Check q :: r => match outs with
+                    | o :: outs' => pb (at_md cur only q) o && seq_b pb cur only r outs'
+                    | [] => false
+                    end
+  end.
+
+(* ck claimed embedded detached signer tampered: the signature was made by `signer` over message 7;
+   `tampered` = the received octets differ from the signed ones *)
+Definition ck (claimedx : option string) (embeddedx : list icert) (detachedx : bool) (signer : nat) (tampered : bool) : iop :=
+  Check (Build_query claimedx embeddedx detachedx (if tampered then 8 else 7) (isign signer 7)).
+
+Definition mkseq (mdx : metadata icert) (only_mdx : bool) (ops : list iop) (outs : list iout) : case :=
+  (mdx, only_mdx, ops, outs).
+
+(* one verification by a fresh receiver *)
+Definition mk (mdx : metadata icert) (only_mdx : bool) (claimedx : option string) (embeddedx : list icert)
+  (detachedx : bool) (signer : nat) (tampered : bool) (obs : iout) : case :=
+  mkseq mdx only_mdx [ck claimedx embeddedx detachedx signer tampered] [obs].
+
+Definition out_eqb (a b : iout) : bool :=
+  Bool.eqb (fst a) (fst b) && list_eqb icert_eqb (snd a) (snd b).
+
+Definition c_md (c : case) := fst (fst (fst c)).
+Definition c_only (c : case) := snd (fst (fst c)).
+Definition c_ops (c : case) := snd (fst c).
+Definition c_outs (c : case) := snd c.
+
 Definition agrees (c : case) : bool :=
-  if detached (fst c) then Bool.eqb (fst (accept iverify (fst c))) (fst (snd c))
-  else out_eqb (accept iverify (fst c)) (snd c).
-Definition holds (c : case) : bool := spec_b (fst c) (snd c).
-Definition cls (c : case) : nat := 0.
+  list_eqb out_eqb (run_ops iverify ireadable iblank (c_md c) (c_only c) (c_ops c)) (c_outs c).
+Definition holds (c : case) : bool := seq_b spec_b (c_md c) (c_only c) (c_ops c) (c_outs c).
+(* class 1 only if EVERY verification that fails the spec lies in finding class 1; class 2 only if every
+   one lies in class 1 or 2; otherwise no class: a plain violation *)
+Definition cls (c : case) : nat :=
+  if seq_b (fun x o => spec_b x o || in_f1 x o) (c_md c) (c_only c) (c_ops c) (c_outs c) then 1
+  else if seq_b (fun x o => spec_b x o || in_f1 x o || in_f2 x o) (c_md c) (c_only c) (c_ops c) (c_outs c) then 2
+  else 0.
 Definition run := run_cases agrees holds cls.
-Definition explain (c : case) := (accept iverify (fst c), candidates (fst c), spec_b (fst c) (snd c)).
+Definition explain (c : case) :=
+  (run_ops iverify ireadable iblank (c_md c) (c_only c) (c_ops c), c_outs c, holds c, cls c).
 
 (* ---- the boolean spec is the stated spec (on the instance) ---- *)
 Lemma published_b_iff mdx e c : published_b mdx e c = true <-> published_for_signing mdx e c.
@@ -63,10 +126,10 @@ Proof.
   unfold published_b, published_for_signing. destruct (lookup_md e mdx) as [roles|].
   - rewrite existsb_exists. split.
     + intros [role [Hr H]]. apply existsb_exists in H as [[u c'] [Hin H]]. cbn [fst snd] in H.
-      apply andb_true_iff in H as [Hc Hu]. apply Nat.eqb_eq in Hc. subst c'.
+      apply andb_true_iff in H as [Hc Hu]. apply icert_eqb_eq in Hc. subst c'.
       exists roles, role, u. repeat split; auto. intros ->. discriminate.
     + intros (roles' & role & u & [= <-] & Hr & Hin & Hu). exists role. split; [exact Hr|].
-      apply existsb_exists. exists (u, c). split; [exact Hin|]. cbn [fst snd]. rewrite Nat.eqb_refl.
+      apply existsb_exists. exists (u, c). split; [exact Hin|]. cbn [fst snd]. rewrite (proj2 (icert_eqb_eq c c) eq_refl).
       destruct u as [[|]|]; cbn; auto; try (contradiction Hu; reflexivity).
   - split; [discriminate|]. intros (roles & _ & _ & H & _). discriminate.
 Qed.
@@ -93,10 +156,10 @@ Proof.
   rewrite no_signing_key_b_iff. split.
   - intros [H|[[[Ho Hd] Hn] He]].
     + left. destruct (claimed x) as [e|]; [|discriminate]. exists e. split; [reflexivity|apply published_b_iff; exact H].
-    + right. repeat split; auto. apply existsb_exists in He as [c' [Hin Hc]]. apply Nat.eqb_eq in Hc. subst; exact Hin.
+    + right. repeat split; auto. apply existsb_exists in He as [c' [Hin Hc]]. apply icert_eqb_eq in Hc. subst; exact Hin.
   - intros [[e [-> Hp]]|(Ho & Hd & Hn & He)].
     + left. apply published_b_iff; exact Hp.
-    + right. repeat split; auto. apply existsb_exists. exists c. split; [exact He|apply Nat.eqb_refl].
+    + right. repeat split; auto. apply existsb_exists. exists c. split; [exact He|apply icert_eqb_eq; reflexivity].
 Qed.
 
 Lemma made_by_iff (x : iinput) k : made_by isign x k <-> k = fst (s x) /\ genuine_b x = true.
@@ -123,6 +186,121 @@ Proof.
       apply trusted_b_iff. exact Ht.
     + destruct (genuine_b x) eqn:Hg; [|reflexivity]. cbn [andb]. unfold claimed_published_b.
       destruct (claimed x) as [e|] eqn:He; [|reflexivity].
-      destruct (published_b (md x) e (fst (s x))) eqn:Hp; [|reflexivity].
+      destruct (published_b (md x) e (Gd (fst (s x)))) eqn:Hp; [|reflexivity].
       apply (H4 (fst (s x)) e); [apply made_by_iff; auto|reflexivity|apply published_b_iff; exact Hp].
+Qed.
+
+
+(* ---- the walk is the stated sequence requirement ---- *)
+Lemma seq_b_iff (pb : iinput -> iout -> bool) (P : iinput -> iout -> Prop) :
+  (forall x o, pb x o = true <-> P x o) ->
+  forall ops cur only outs, seq_b pb cur only ops outs = true <-> seq_spec P cur only ops outs.
+Proof.
+  intros HP ops. induction ops as [|o r IH]; intros cur only outs.
+  - cbn [seq_b]. unfold seq_spec, nchecks. cbn [filter length]. split.
+    + destruct outs; [|discriminate]. intros _. split; [reflexivity|]. intros pre q post E. destruct pre; discriminate.
+    + intros [L _]. destruct outs; [reflexivity|discriminate].
+  - destruct o as [m'| |q0]; cbn [seq_b].
+    + rewrite IH. unfold seq_spec, nchecks. cbn [filter is_check]. split.
+      * intros [L H]. split; [exact L|]. intros pre q post E. destruct pre as [|p pre']; [discriminate|].
+        cbn in E. injection E as E1 E2. subst p r. cbn [filter is_check loaded fold_left]. apply (H pre' q post eq_refl).
+      * intros [L H]. split; [exact L|]. intros pre q post E. subst r.
+        apply (H (Reload m' :: pre) q post eq_refl).
+    + rewrite IH. unfold seq_spec, nchecks. cbn [filter is_check]. split.
+      * intros [L H]. split; [exact L|]. intros pre q post E. destruct pre as [|p pre']; [discriminate|].
+        cbn in E. injection E as E1 E2. subst p r. cbn [filter is_check loaded fold_left]. apply (H pre' q post eq_refl).
+      * intros [L H]. split; [exact L|]. intros pre q post E. subst r.
+        apply (H (ReloadFailed :: pre) q post eq_refl).
+    + destruct outs as [|o outs'].
+      * split; [discriminate|]. intros [L _]. unfold nchecks in L. cbn [filter is_check length] in L. discriminate.
+      * rewrite andb_true_iff, IH, HP. unfold seq_spec, nchecks. cbn [filter is_check length]. split.
+        -- intros [Ho [L H]]. split; [rewrite L; reflexivity|]. intros pre q post E. destruct pre as [|p pre'].
+           ++ cbn in E. injection E as E1 E2. subst q0 r. exists o. split; [reflexivity|exact Ho].
+           ++ cbn in E. injection E as E1 E2. subst p r. cbn [filter is_check length nth_error loaded fold_left].
+              apply (H pre' q post eq_refl).
+        -- intros [L H]. split; [|split].
+           ++ destruct (H [] q0 r eq_refl) as [o' [Hn Ho]]. cbn in Hn. injection Hn as <-. exact Ho.
+           ++ injection L as L. exact L.
+           ++ intros pre q post E. subst r. apply (H (Check q0 :: pre) q post eq_refl).
+Qed.
+
+Lemma holds_iff c : holds c = true <-> seq_spec (spec icert_of isign) (c_md c) (c_only c) (c_ops c) (c_outs c).
+Proof. unfold holds. apply seq_b_iff. exact spec_b_iff. Qed.
+
+(* the faithful model does break the specification: completeness inside class 1, completeness and (with
+   the fallback on) soundness inside class 2 *)
+Definition f1_witness : iinput :=
+  Build_input [("sp", [[(Some Signing, Jk 0); (Some Signing, Gd 1)]])] true (Some "sp") [] true 7 (isign 1 7).
+Definition f2_witness : iinput :=
+  Build_input [("idp", [[(Some Signing, Gd 1); (None, Bl 0)]])] false (Some "idp") [Gd 6] false 7 (isign 6 7).
+
+Lemma complete_refuted :
+  exists x, ~ complete icert_of isign x (accept iverify ireadable iblank x).
+Proof.
+  exists f1_witness. intros H.
+  assert (Hp : published_for_signing (md f1_witness) "sp" (icert_of 1)) by (apply published_b_iff; vm_compute; reflexivity).
+  specialize (H 1 "sp"%string eq_refl eq_refl Hp). vm_compute in H. discriminate.
+Qed.
+
+Lemma sound_refuted :
+  exists x, ~ sound icert_of isign x (accept iverify ireadable iblank x).
+Proof.
+  exists f2_witness. intros (H1 & _ & _).
+  assert (Hin : In (Gd 6) (snd (accept iverify ireadable iblank f2_witness))) by (vm_compute; left; reflexivity).
+  apply H1, trusted_b_iff in Hin. vm_compute in Hin. discriminate.
+Qed.
+
+Lemma refutations_classified :
+  in_f1 f1_witness (accept iverify ireadable iblank f1_witness) = true
+  /\ in_f2 f2_witness (accept iverify ireadable iblank f2_witness) = true.
+Proof. vm_compute. split; reflexivity. Qed.
+
+Lemma blank_pub_b_iff x : blank_pub_b x = true <-> blank_published iblank (md x) (claimed x).
+Proof. unfold blank_pub_b. apply blank_walk_iff. Qed.
+
+Lemma iverify_true c mm ss : iverify c mm ss = true -> c = Gd (fst ss) /\ Nat.eqb (snd ss) mm = true.
+Proof.
+  destruct c as [k|n|n]; cbn [iverify]; try discriminate. intros H.
+  apply andb_true_iff in H as [H1 H2]. apply Nat.eqb_eq in H1. apply Nat.eqb_eq in H2. subst.
+  split; [reflexivity|apply Nat.eqb_refl].
+Qed.
+
+(* every spec failure of the MODEL lies in class 1 or 2 *)
+Lemma model_failures_classified x :
+  spec_b x (accept iverify ireadable iblank x) = false ->
+  in_f1 x (accept iverify ireadable iblank x) || in_f2 x (accept iverify ireadable iblank x) = true.
+Proof.
+  intros Hf. destruct (blank_pub_b x) eqn:Eb.
+  - (* class 2 *)
+    apply orb_true_iff. right. unfold in_f2. rewrite Eb. cbn [andb].
+    unfold accept, candidates, signing_certs. unfold blank_pub_b in Eb. rewrite Eb.
+    destruct (detached x) eqn:Ed; [reflexivity|].
+    destruct (only_md x) eqn:Eo; [reflexivity|].
+    unfold fallback_cfg. rewrite Eo, Ed. cbn [negb andb].
+    apply andb_true_iff. split.
+    + apply forallb_forall. intros c Hc. apply try_certs_handed in Hc. apply orb_true_iff. right.
+      apply existsb_exists. exists c. split; [exact Hc|apply icert_eqb_eq; reflexivity].
+    + destruct (fst (try_certs iverify (embedded x) (m x) (s x))) eqn:Ea; [|reflexivity]. cbn [negb orb].
+      apply try_certs_true in Ea as [c [Hin Hv]]. apply iverify_true in Hv as [-> Hg].
+      unfold genuine_b. rewrite Hg. cbn [andb]. apply existsb_exists. exists (Gd (fst (s x))).
+      split; [exact Hin|apply icert_eqb_eq; reflexivity].
+  - (* no blank KeyDescriptor: soundness holds, completeness fails only inside class 1 *)
+    assert (Hnb : ~ blank_published iblank (md x) (claimed x)).
+    { intros H. apply blank_pub_b_iff in H. congruence. }
+    assert (Hsound : sound icert_of isign x (accept iverify ireadable iblank x)).
+    { apply accept_sound; [exact iverify_spec|exact isign_inj|]. intros _ _. exact Hnb. }
+    apply orb_true_iff. left. unfold in_f1. rewrite Eb. cbn [negb andb].
+    destruct (detached x) eqn:Ed.
+    + destruct (hits_unreadable iverify ireadable (walk_certs (md x) (claimed x)) (m x) (s x)) eqn:Hh.
+      * destruct (fst (accept iverify ireadable iblank x)) eqn:Ea; [|reflexivity]. exfalso.
+        assert (Hs : spec icert_of isign x (accept iverify ireadable iblank x)).
+        { split; [exact Hsound|]. intros k e _ _ _. exact Ea. }
+        apply spec_b_iff in Hs. congruence.
+      * exfalso. assert (Hs : spec icert_of isign x (accept iverify ireadable iblank x)).
+        { split; [exact Hsound|]. apply accept_complete; [exact iverify_spec|]. split; [exact Hnb|].
+          intros _ Hu. apply hits_unreadable_iff in Hu. congruence. }
+        apply spec_b_iff in Hs. congruence.
+    + exfalso. assert (Hs : spec icert_of isign x (accept iverify ireadable iblank x)).
+      { apply trust_enveloped; [exact iverify_spec|exact isign_inj|exact Ed|exact Hnb]. }
+      apply spec_b_iff in Hs. congruence.
 Qed.
